@@ -350,8 +350,19 @@ def adc(img, gain, saturation_capacity=None, warn_saturate=False, dtype=None):
             # a converter rails at the full scale of its output type (a plain
             # cast would wrap around)
             info = np.iinfo(dtype)
-            img = np.clip(img, info.min, info.max)
-        img = img.astype(dtype)
+            # (the full scale of a 64-bit type is not a double: clip to the
+            # largest double that fits the type for the cast and set the
+            # railed pixels to the full scale afterwards)
+            top = float(info.max)
+            if top > info.max:
+                railed = img >= top
+                top = np.nextafter(top, 0)
+            else:
+                railed = img > top
+            img = np.clip(img, info.min, top).astype(dtype)
+            img[railed] = info.max
+        else:
+            img = img.astype(dtype)
 
     
 
